@@ -98,3 +98,9 @@ func VerifH_serial_xaesgcm() {
 	verifrt.Assert(err == nil, "NewKey")
 	verifh.CheckKeyRoundTrip(k, &keySerializer{}, &keyParser{}, &parametersSerializer{}, &parametersParser{}, pk, id, typeURL, tinkpb.KeyData_SYMMETRIC)
 }
+
+func VerifH_c18_xaesgcm() {
+	verifrt.EngineOnly()
+	a, _, _, _ := build()
+	verifh.CheckAEADShared(a)
+}
